@@ -283,7 +283,7 @@ impl<T: Corp> Corp for Box<T> {
 fn seq_idl<T: Corp>(it: impl Iterator<Item = IDLValue>, _p: std::marker::PhantomData<T>) -> IDLValue {
     let vs: Vec<IDLValue> = it.collect();
     // `vec nat8` is the blob form in the untyped world
-    if std::any::TypeId::of::<T>() == std::any::TypeId::of::<u8>() {
+    if matches!(T::ty().as_ref(), candid::types::internal::TypeInner::Nat8) {
         IDLValue::Blob(vs.iter().map(|v| if let IDLValue::Nat8(b) = v { *b } else { 0 }).collect())
     } else {
         IDLValue::Vec(vs)
@@ -1009,6 +1009,20 @@ pub fn all() -> Vec<Entry> {
     keyed_by!(v, Int);
     keyed_by!(v, Principal);
     keyed_by!(v, i64);
+    // newtype structs around primitives inside vectors (`struct Id(u64)` in a `Vec<Id>`): the element type is the
+    // primitive's, so the bulk reader of primitive vectors is taken
+    v.push(entry!(Vec<Wrap<u8>>));
+    v.push(entry!(Vec<Wrap<u64>>));
+    v.push(entry!(Vec<Wrap<bool>>));
+    v.push(entry!(Vec<Wrap<i16>>));
+    v.push(entry!(Vec<Wrap<f64>>));
+    v.push(entry!(Vec<Wrap<Wrap<u32>>>));
+    v.push(entry!(Vec<Wrap<Nat>>));
+    v.push(entry!(Vec<Wrap<String>>));
+    v.push(entry!([Wrap<u8>; 2]));
+    v.push(entry!(Option<Vec<Wrap<i64>>>));
+    v.push(entry!(BTreeMap<String, Vec<Wrap<u16>>>));
+    v.push(entry!((Vec<Wrap<u8>>, Int)));
     v.push(entry!(i128));
     v.push(entry!(Vec<i128>));
     v.push(entry!(i8));
